@@ -409,6 +409,11 @@ pub fn shadow_children(o: Object) -> Vec<u64> {
     }
 }
 
+/// Whether a heap value's box is live (true for immediates)
+pub fn shadow_is_live_obj(o: Object) -> bool {
+    !o.is_heap_allocated() || shadow_is_live(o.as_ptr() as usize)
+}
+
 /// The shadow id of a heap value (0 for immediates)
 pub fn shadow_id_of(o: Object) -> u64 {
     if o.is_heap_allocated() {
